@@ -91,6 +91,11 @@ check("C05", "metamorphic property test: accepted control program vs the same pr
       "A fragment program the checker accepts is mutated at one expression position chosen uniformly among all positions (any nesting depth: function/lambda bodies, default arguments, loop and branch bodies, arguments, list elements, interpolations) by one of 17 definite errors (operators without implementation, wrong arity, unknown keyword, argument of a disjoint class, undefined name/callee, absent attribute); the mutant must yield >= 1 error diagnostic, and for a sample `erg run` must exit non-zero without output.",
       "The error table is restricted to expressions that are errors under every typing of the fragment.",
       "DESIGN.md §3 C05")
+check("C23", "model-based property test: generated move/use scripts over mutable variables against a reference model of the moved set",
+      "Straight-line scripts of up to 14 operations over mutable lists and naturals at module top level or inside a procedure body: rebinding, list and tuple construction, passing for a mutable-typed parameter (moves); RefMut / Ref / immutable parameters, print!, procedural method calls (uses that do not move). The checker must report >= 1 MoveError exactly when the model has a use after a move, every MoveError must lie on a line the model marks, and no other error kind may be reported.",
+      "Function (non-procedure) scope is not generated (any operation on a mutable object is an effect there); generic parameters, closures capturing a mutable variable and control flow are not generated because the statement leaves their verdict open.",
+      "DESIGN.md §3 C23")
+
 check("C24", "property test: injected undefined name with a generator-known text, every diagnostic's location validated against the source",
       "Fragment programs with wild strings get an undefined name injected at a uniformly chosen expression position; every diagnostic must carry lines inside the source and columns inside its line, the undefined-name diagnostic must highlight exactly the name, and rendering each diagnostic (Display) must not panic.",
       "Columns counted in characters; diagnostics without column information are only line-checked.",
